@@ -6,7 +6,7 @@ from vf.engine import terms as T
 from vf.engine import mathfn
 from vf.engine.values import Sym, SArr, SObj, Opaque, Builtin, wrap, term_of, is_scalar, PyRaise
 from vf.contract import Contract, contract, make_fv
-from ._util import real, integer, sym_array, fresh_index
+from ._util import real, integer, sym_array, fresh_index, same_data
 
 VT = "virocon.variable_transform."
 PAIRS = [("hs_tz_to_s_d", "s_d_to_hs_tz"), ("hs_tz_to_hs_s", "hs_s_to_hs_tz"), ("hs_tz_to_s_tz", "s_tz_to_hs_tz")]
@@ -208,8 +208,8 @@ class TransformedPdf(Contract):
         if out.outcome != "return":
             cx.oblige("post.returns", False, "post", f"raised {out.exc}: {out.msg}")
             return
-        cx.oblige("post.pdf.transform_of_x", len(self.transform.calls) == 1 and self.transform.calls[0][0][0] is self.x, "post")
-        cx.oblige("post.pdf.jacobian_of_x", len(self.jacobian.calls) == 1 and self.jacobian.calls[0][0][0] is self.x, "post", "Jacobian evaluated at the original point")
+        cx.oblige("post.pdf.transform_of_x", len(self.transform.calls) == 1 and same_data(cx, self.transform.calls[0][0][0], self.x), "post")
+        cx.oblige("post.pdf.jacobian_of_x", len(self.jacobian.calls) == 1 and same_data(cx, self.jacobian.calls[0][0][0], self.x), "post", "Jacobian evaluated at the original point")
         cx.oblige("post.pdf.base_at_transformed", len(self.base.calls) == 1 and self.base.calls[0][0] == "pdf" and self.base.calls[0][1][0] is self.tx, "post")
         (k,) = fresh_index(cx, (self.n,))
         r = out.value
@@ -260,7 +260,7 @@ class TransformedDraw(Contract):
             return
         ok = len(self.base.calls) == 1 and self.base.calls[0][0] == "draw_sample"
         cx.oblige("post.draw_sample.base_draw", ok and self.base.calls[0][1][0] is self.n, "post", "n points are drawn from the base model")
-        cx.oblige("post.draw_sample.inverse", len(self.inverse.calls) == 1 and self.inverse.calls[0][0][0] is self.base_sample and out.value is self.inv_result, "post", "the sample is the inverse-transformed base sample")
+        cx.oblige("post.draw_sample.inverse", len(self.inverse.calls) == 1 and same_data(cx, self.inverse.calls[0][0][0], self.base_sample) and same_data(cx, out.value, self.inv_result), "post", "the sample is the inverse-transformed base sample")
         if ok and case["rs"] == "seed":
             cx.oblige("post.deterministic", self.base.calls[0][2].get("random_state") is self.seed, "post",
                       "with model.random_state set, the base draw is seeded by it (results derived from the sample are reproducible)")
